@@ -27,3 +27,17 @@ int good_memcmp(const void *b1, const void *b2, size_t len) {
     }
     return res;
 }
+/* result clause: constant-time shape kept, result wrong */
+int bad_result_done(const void *b1, const void *b2, size_t len) {      /* done |= cmp: a later 'less' pair overrides an earlier 'greater' one */
+    const unsigned char *p1 = b1, *p2 = b2; int res = 0, done = 0;
+    for (size_t i = 0; i < len; i++) {
+        int lt = (p1[i] - p2[i]) >> 8, gt = (p2[i] - p1[i]) >> 8, cmp = lt - gt;
+        res |= cmp & ~done; done |= cmp;
+    }
+    return res;
+}
+int bad_result_bcmp(const void *b1, const void *b2, size_t n) {         /* and-accumulated: differences in disjoint bits cancel */
+    const unsigned char *p = b1, *q = b2; int r = 0xff;
+    for (; n > 0; n--) r &= *p++ ^ *q++;
+    return r != 0;
+}
